@@ -336,6 +336,12 @@ func genSink(r *Rng) []*Scenario {
 // evaluate runs one scenario and updates the statistics.  It is a pure
 // function of the scenario and the code under test.
 func evaluate(s *Scenario, st *runStats) (fail *Failure) {
+	for _, p := range s.Prelude {
+		func() {
+			defer func() { recover() }()
+			evaluate(p, newStats())
+		}()
+	}
 	st.Evaluations++
 	nontrivial := false
 	applyKnobs(s.Knobs)
